@@ -85,6 +85,8 @@ struct Plan {
     rec: Arc<Recorder>,
     nprobe: AtomicU64,
     at2_hits: AtomicU64,
+    /// number of events whose firing has completed (a deferred firing completes a little later)
+    completed: AtomicU64,
 }
 
 /// Accumulates the process-wide event log so that the harness can look at it while running.
@@ -118,7 +120,7 @@ impl Plan {
     }
 
     /// Called synchronously from inside rustrtc at every probe point.
-    fn on_probe(&self, comp: &str, inst: &str, point: &str) {
+    fn on_probe(self: &Arc<Self>, comp: &str, inst: &str, point: &str) {
         // points of other components are addressed as "<comp>:<point>"
         let qualified;
         let point = if comp == "pc" {
@@ -140,11 +142,9 @@ impl Plan {
         if let Some(pp) = &self.phase_point {
             if point == pp && !self.fired1.swap(true, Ordering::SeqCst) {
                 log("life", inst, "phase_hit", json!({"point": point}));
-                let ok = self.fire(&self.ev1, 1);
-                self.applicable1.store(ok, Ordering::SeqCst);
+                self.fire_from_helper(1);
                 if self.at2 == "now" && self.ev2 != "none" && !self.fired2.swap(true, Ordering::SeqCst) {
-                    let ok = self.fire(&self.ev2, 2);
-                    self.applicable2.store(ok, Ordering::SeqCst);
+                    self.fire_from_helper(2);
                 }
                 return;
             }
@@ -161,8 +161,31 @@ impl Plan {
             && !self.fired2.swap(true, Ordering::SeqCst)
         {
             log("life", inst, "race_hit", json!({"point": point}));
-            let ok = self.fire(&self.ev2, 2);
-            self.applicable2.store(ok, Ordering::SeqCst);
+            self.fire_from_helper(2);
+        }
+    }
+
+    /// Fire the ord-th event from inside a probe. The event runs on a helper thread and the probe waits for it,
+    /// which is the same as calling it in place - except when the code under test holds a lock at the probe point
+    /// that the event needs (e.g. start_dtls keeps the transceiver list locked while it spawns the loops in Rtp
+    /// mode): then the probe returns after a short wait and the event completes as soon as the lock is released,
+    /// exactly as a close() from another application thread would.
+    fn fire_from_helper(self: &Arc<Self>, ord: u32) {
+        let me = self.clone();
+        let (tx, rx) = std::sync::mpsc::channel::<()>();
+        std::thread::spawn(move || {
+            let ev = if ord == 1 { me.ev1.clone() } else { me.ev2.clone() };
+            let ok = me.fire(&ev, ord);
+            if ord == 1 {
+                me.applicable1.store(ok, Ordering::SeqCst);
+            } else {
+                me.applicable2.store(ok, Ordering::SeqCst);
+            }
+            me.completed.fetch_add(1, Ordering::SeqCst);
+            let _ = tx.send(());
+        });
+        if rx.recv_timeout(Duration::from_millis(250)).is_err() {
+            log("life", &self.victim, "fire_deferred", json!({"ord": ord}));
         }
     }
 
@@ -442,6 +465,7 @@ async fn run_c17(sc: &Value, attempt: u64, rec: Arc<Recorder>) -> Value {
         rec: rec.clone(),
         nprobe: AtomicU64::new(0),
         at2_hits: AtomicU64::new(0),
+        completed: AtomicU64::new(0),
     });
     {
         let p = plan.clone();
@@ -668,6 +692,10 @@ async fn run_c17(sc: &Value, attempt: u64, rec: Arc<Recorder>) -> Value {
     drive.await;
 
     let fired1 = plan.fired1.load(Ordering::SeqCst);
+    if fired1 && plan.phase_point.is_some() {
+        // a firing deferred by a lock held at the probe point completes as soon as the lock is released
+        wait_until(Duration::from_secs(3), || plan.completed.load(Ordering::SeqCst) >= 1).await;
+    }
     let app1 = plan.applicable1.load(Ordering::SeqCst);
     // ev2 with at2 == "delay": a little later from another thread
     if fired1 && ev2 != "none" && !blocked && (at2 == "delay" || at2 == "none") && !plan.fired2.swap(true, Ordering::SeqCst) {
